@@ -311,3 +311,36 @@ contract(TR + 'create_type_from_ctype_string',
                  "implies(not strv and table_entry(base) is None and not isinstance(result, (ast.Array, ast.List, ast.Map)), "
                  "result.target_fundamental is None and result.target_giname is None)",
          })
+
+
+
+# ---- from the C lexer's type to the introspection type: spelling, complete spelling, const-ness of the pointee --------------------
+from giscanner import sourcescanner as _ss   # noqa
+for _n in ('_create_source_type', '_create_complete_source_type'):
+    contract(TR + _n, params={'self': 'Transformer', 'source_type': 'SourceType', 'is_parameter': 'bool'}, returns='str',
+             pure_keys=['self', 'source_type._stype', 'is_parameter'], trusted=True,
+             note='C spelling of a lexer type (recursive descent over pointer / array levels); assumed')
+
+
+def pointee_is_const(source_type):
+    """the C type is a pointer whose POINTEE carries the const qualifier (`const char *`, not `char * const`, not `const T **`)"""
+    return source_type._stype.type == _ss.CTYPE_POINTER and source_type._stype.base_type is not None and \
+        (source_type._stype.base_type.type_qualifier // _ss.TYPE_QUALIFIER_CONST) % 2 == 1
+
+
+contract(TR + '_create_type_from_base',
+         params={'self': 'Transformer', 'source_type': 'SourceType', 'is_parameter': 'bool', 'is_return': 'bool'},
+         returns='Type', props=('C02',), fresh_result=True,
+         raises={'AttributeError': 'source_type._stype.type == _ss.CTYPE_POINTER and source_type._stype.base_type is None'},
+         ensures={
+             'has_ctype': 'result.ctype is not None',
+             'C02.base.constness_is_that_of_the_pointee':
+                 "all_calls('create_type_from_ctype_string', 'bool(arg_is_const) == pointee_is_const(source_type) and "
+                 "arg_is_parameter == is_parameter and arg_is_return == is_return')",
+             'C02.base.spellings_come_from_the_lexer_type':
+                 "all_calls('create_type_from_ctype_string', 'arg_ctype == self._create_source_type(source_type, is_parameter) and "
+                 "arg_complete_ctype == self._create_complete_source_type(source_type, is_parameter)')",
+         },
+         note='is_const feeds the transfer defaults (a returned `const char *` is transfer none); it is read from the qualifier bits of '
+              'the pointee, never from the spelled type. fresh_result (the returned Type is a new object, as '
+              'create_type_from_ctype_string builds or clones one) is assumed at call sites, not proved')
